@@ -38,37 +38,57 @@ def structural(net):
 # ---------------------------------------------------------------------------
 # generic recipe: arguments from parameter names
 # ---------------------------------------------------------------------------
-def recipe_args(name, sig, directed, lab, present_node=None, present_edge=None):
-    """lab() yields an id; returns (args, kwargs) or None when no recipe applies."""
+# Required parameters of the structural mutators of the pinned public API.  Discovery
+# below reads signatures from the code under test; when a change hides a signature
+# behind (*args, **kwargs) the pinned names keep the mutator in the alphabet.
+PINNED = {
+    "H": {"add_edge": ["members"], "add_edges_from": ["ebunch_to_add"], "add_node": ["node"], "add_node_to_edge": ["edge", "node"], "add_nodes_from": ["nodes_for_adding"], "add_weighted_edges_from": ["ebunch"], "cleanup": [], "clear": [], "clear_edges": [], "double_edge_swap": ["n_id1", "n_id2", "e_id1", "e_id2"], "merge_duplicate_edges": [], "random_edge_shuffle": [], "remove_edge": ["idx"], "remove_edges_from": ["ebunch"], "remove_node": ["n"], "remove_node_from_edge": ["edge", "node"], "remove_nodes_from": ["nodes"]},
+    "D": {"add_edge": ["members"], "add_edges_from": ["ebunch_to_add"], "add_node": ["node"], "add_node_to_edge": ["edge", "node", "direction"], "add_nodes_from": ["nodes_for_adding"], "cleanup": [], "clear": [], "remove_edge": ["idx"], "remove_edges_from": ["ebunch"], "remove_node": ["n"], "remove_node_from_edge": ["edge", "node", "direction"], "remove_nodes_from": ["nodes"]},
+    "S": {"add_edge": ["members"], "add_edges_from": ["ebunch_to_add"], "add_node": ["node"], "add_nodes_from": ["nodes_for_adding"], "add_simplex": ["members"], "add_simplices_from": ["ebunch_to_add"], "add_weighted_edges_from": ["ebunch_to_add"], "add_weighted_simplices_from": ["ebunch_to_add"], "cleanup": [], "clear": [], "clear_edges": [], "random_edge_shuffle": [], "remove_edge": ["idx"], "remove_edges_from": ["ebunch"], "remove_node": ["n"], "remove_nodes_from": ["nodes"], "remove_simplex_id": ["idx"], "remove_simplex_ids_from": ["ebunch"]},
+}
+
+
+def _opaque(sig):
+    named = [n for n, par in sig.parameters.items() if n != "self" and par.kind not in (par.VAR_POSITIONAL, par.VAR_KEYWORD)]
+    return not named and any(par.kind in (par.VAR_POSITIONAL, par.VAR_KEYWORD) for par in sig.parameters.values())
+
+
+def recipe_args(name, sig, directed, lab, present_node=None, present_edge=None, cls=None):
+    """lab() yields an id; returns kwargs (in positional order) or None when no recipe applies."""
     kwargs = {}
-    for pname, par in sig.parameters.items():
-        if pname == "self" or par.kind in (par.VAR_POSITIONAL, par.VAR_KEYWORD):
-            continue
-        if par.default is not inspect._empty:
-            continue
+    if _opaque(sig) and cls is not None and name in PINNED.get(cls, {}):
+        required = list(PINNED[cls][name])
+    else:
+        required = [pn for pn, par in sig.parameters.items()
+                    if pn != "self" and par.kind not in (par.VAR_POSITIONAL, par.VAR_KEYWORD) and par.default is inspect._empty]
+    for pname in required:
+        if cls == "S" and name == "add_edge" and pname == "edge":
+            pname_key, pname = pname, "members"
+        else:
+            pname_key = pname
         if pname in ("node", "n", "n_id1", "n_id2"):
-            kwargs[pname] = present_node if present_node is not None else lab()
+            kwargs[pname_key] = present_node if present_node is not None else lab()
         elif pname in ("idx", "edge", "e_id1", "e_id2"):
-            kwargs[pname] = present_edge if present_edge is not None else lab()
+            kwargs[pname_key] = present_edge if present_edge is not None else lab()
         elif pname in ("nodes_for_adding", "nodes"):
-            kwargs[pname] = [lab(), present_node if present_node is not None else lab()]
+            kwargs[pname_key] = [lab(), present_node if present_node is not None else lab()]
         elif pname == "members":
-            kwargs[pname] = ([lab()], [lab()]) if directed else [lab(), lab()]
+            kwargs[pname_key] = ([lab()], [lab()]) if directed else [lab(), lab()]
         elif pname in ("ebunch_to_add",):
-            kwargs[pname] = [([lab()], [lab()])] if directed else [[lab(), lab()]]
+            kwargs[pname_key] = [([lab()], [lab()])] if directed else [[lab(), lab()]]
         elif pname == "ebunch":
             if name.startswith("add_weighted"):
-                kwargs[pname] = [(lab(), lab(), 7)]
+                kwargs[pname_key] = [(lab(), lab(), 7)]
             elif name.startswith("remove"):
-                kwargs[pname] = [present_edge if present_edge is not None else lab()]
+                kwargs[pname_key] = [present_edge if present_edge is not None else lab()]
             else:
-                kwargs[pname] = [[lab(), lab()]]
+                kwargs[pname_key] = [[lab(), lab()]]
         elif pname == "values":
-            kwargs[pname] = {lab(): {"k": 1}}
+            kwargs[pname_key] = {lab(): {"k": 1}}
         elif pname == "direction":
-            kwargs[pname] = "in"
+            kwargs[pname_key] = "in"
         elif pname == "simplex":
-            kwargs[pname] = [lab(), lab()]
+            kwargs[pname_key] = [lab(), lab()]
         else:
             return None
     return kwargs
@@ -108,14 +128,18 @@ def discover():
                                 INPLACE_FUNCS[name](net)
                             else:
                                 f = getattr(net, name)
-                                kw = recipe_args(name, inspect.signature(f), cls == "D", lambda: next(counter), pn, pe)
+                                kw = recipe_args(name, inspect.signature(f), cls == "D", lambda: next(counter), pn, pe, cls=cls)
+                                opaque = _opaque(inspect.signature(f))
                                 if kw is None:
                                     continue
                                 if name == "double_edge_swap":
                                     es = list(net.edges)
                                     m0, m1 = list(net.edges.members(es[0])), list(net.edges.members(es[1]))
                                     kw = {"n_id1": m0[0], "n_id2": [x for x in m1 if x not in m0][0], "e_id1": es[0], "e_id2": es[1]}
-                                f(**kw)
+                                if opaque:
+                                    f(*kw.values())
+                                else:
+                                    f(**kw)
                         called = True
                     except Exception:
                         called = True
@@ -203,9 +227,9 @@ def _call(ctx, p, net):
                 else:
                     f = getattr(net, name)
                     sig = inspect.signature(getattr(CLS[p["cls"]], name))
-                    kw = recipe_args(name, sig, p["cls"] == "D", lambda: ctx.fresh())
+                    kw = recipe_args(name, sig, p["cls"] == "D", lambda: ctx.fresh(), cls=p["cls"])
                     ctx.info["args"] = kw
-                    if p.get("style") == "positional":
+                    if p.get("style") == "positional" or _opaque(sig):
                         f(*kw.values())
                     else:
                         f(**kw)
@@ -343,7 +367,9 @@ def spec(tier, seed):
     units = []
     not_covered = {}
     for cls in "HDS":
-        muts = set(disc[cls]["mutators"])
+        # discovered on this tree, plus the pinned API's mutators that still exist (a change
+        # that hides a signature or breaks the probe call must not shrink the alphabet)
+        muts = set(disc[cls]["mutators"]) | {m for m in PINNED[cls] if hasattr(CLS[cls], m)}
         via_list = ["freeze"] + (["subhypergraph"] if cls != "D" else [])
         op_names = [o for o in OPS[cls] if method_of(o) in muts]
         covered = {method_of(o) for o in op_names}
@@ -364,6 +390,7 @@ def spec(tier, seed):
 
     def post(results):
         return {"coverage": {"discovered_mutators": {c: disc[c]["mutators"] for c in disc},
+                             "pinned_mutators_not_rediscovered": {c: sorted(m for m in PINNED[c] if hasattr(CLS[c], m) and m not in disc[c]["mutators"]) for c in disc},
                              "public_callables_without_recipe": {c: disc[c]["unexercised"] for c in disc},
                              "probed_non_mutators": {c: disc[c]["non_mutators"] for c in disc},
                              "mutators_reached_only_by_generic_recipe": not_covered}}
